@@ -53,6 +53,17 @@ def tasks(tier):
                    abort=True, breaker={"threshold": thr, "window": 8, "recovery": 2,
                                         "trip_on": ["T", "U", "P"]})
         out.append({"family": "records-noretry", "cfg": cfg, "entry": e, "bound": 1, "ncalls": 3})
+    # overlapping calls on one Policy object: while call A is inside a callback (attempt-end
+    # hook, metric hook, strategy) a whole call B with a different final class runs through the
+    # same policy; A must still report its own final class
+    for site, e, script in itertools.product(["aend", "metric", "strategy"],
+                                             ["Policy.call", "Policy.execute", "AsyncPolicy.call",
+                                              "AsyncPolicy.execute"],
+                                             [["x:P"], ["x:U", "x:U", "x:U"], ["ok"]]):
+        cfg = dict(M=3, alphabet=["ok", "x:T", "x:P", "r:T"], max_unknown=1, attempt_hooks="call",
+                   nest={"site": site, "entry": e, "script": script},
+                   breaker={"threshold": 5, "window": 8, "recovery": 2, "trip_on": ["T", "U", "P"]})
+        out.append({"family": "records-reentrant", "cfg": cfg, "entry": e, "bound": 1, "ncalls": 1})
     # call sequences sharing one breaker (rejections, probes)
     n = 2 if tier == "quick" else 3
     for e, thr in itertools.product(WITH_RETRY[:4], [1, 2]):
@@ -66,7 +77,15 @@ def tasks(tier):
 
 def monitor(w, cfg):
     v = []
-    for call in split_calls(w.trace):
+    for nt in getattr(w, "nested_traces", ()):
+        v.extend(_monitor_trace(nt, cfg))
+    v.extend(_monitor_trace(w.trace, cfg))
+    return v
+
+
+def _monitor_trace(trace, cfg):
+    v = []
+    for call in split_calls(trace):
         end = call.end
         if end is None:
             continue
